@@ -54,6 +54,7 @@ func checkC11(ctx *Ctx, r *Report) {
 	c11ComprehensionVar(ctx, r)
 	// the Go side of the omission agreement
 	c01GoWireNames(ctx, r)
+	c11HuntedRules(ctx, r)
 	c11ThirdRound(ctx, r)
 	c06NullableGuardExact(ctx, r)
 	c11HintMonotone(ctx, r)
@@ -1922,4 +1923,145 @@ func c01GoByteSliceTrap(ctx *Ctx, r *Report) {
 	r.Count("array formatters of the Go jenny", 1)
 	r.Check(special, "kinds/go-byte-slice-trap", "golang.typeFormatter.formatArray element kind uint8", fd.Pos(), "lists of uint8 are not declared as a byte slice",
 		"formatArray declares a list of uint8 as `[]uint8`: encoding/json encodes every slice of uint8 as a base64 string — {\"levels\":[1,2,3]} is re-encoded as {\"levels\":\"AQID\"}")
+}
+
+// c11HuntedRules: (a) the names held by a discriminator mapping are object names; Python classes are named
+// formatObjectName(object name): every mapping value written by disjunctionFromJSON goes through formatObjectName;
+// (b) an enum member whose name is empty (the empty string of a string enum) needs a name: every member name written by
+// the Python jenny goes through formatEnumMemberName, which tests for the empty name.
+func c11HuntedRules(ctx *Ctx, r *Report) {
+	p := ctx.Pkg("internal/jennies/python")
+	if p == nil {
+		return
+	}
+	info := p.TypesInfo
+	// (a)
+	fn := ctx.LookupMethod("internal/jennies/python", "RawTypes", "disjunctionFromJSON")
+	fd, _ := ctx.DeclOf(fn)
+	fmtObj := ctx.LookupFunc("internal/jennies/python", "formatObjectName")
+	if fd == nil || fmtObj == nil {
+		r.Undecided("anchor lost: python.disjunctionFromJSON / formatObjectName")
+	} else {
+		parents := parentMap(fd)
+		n := 0
+		ast.Inspect(fd.Body, func(m ast.Node) bool {
+			ix, ok := m.(*ast.IndexExpr)
+			if !ok || !strings.HasSuffix(exprString(ix.X), ".DiscriminatorMapping") {
+				return true
+			}
+			// the comma-ok form binds the value to a variable: follow it
+			uses := []ast.Node{ix}
+			if as, ok := parents[ast.Node(ix)].(*ast.AssignStmt); ok && len(as.Lhs) >= 1 {
+				if id, ok := as.Lhs[0].(*ast.Ident); ok {
+					o := objOf(info, id)
+					uses = nil
+					ast.Inspect(fd.Body, func(q ast.Node) bool {
+						if u, ok := q.(*ast.Ident); ok && u != id && objOf(info, u) == o {
+							uses = append(uses, u)
+						}
+						return true
+					})
+				}
+			}
+			for _, u := range uses {
+				n++
+				formatted := false
+				if c, ok := parents[u].(*ast.CallExpr); ok && callee(info, c) == fmtObj {
+					formatted = true
+				}
+				r.Check(formatted, "skeleton/python-class-names-formatted", fmt.Sprintf("python.disjunctionFromJSON mapping value #%d", n), u.Pos(), "written through formatObjectName",
+					"disjunctionFromJSON writes a name taken from the discriminator mapping as it is: classes are named formatObjectName(object name) — for an object that is not UpperCamelCase (`cat_event`) from_json refers to a class that does not exist (NameError)")
+			}
+			return true
+		})
+		r.Count("discriminator mapping values written by the python jenny", n)
+		r.Floor("discriminator mapping values written by the python jenny", 1)
+	}
+	// (c) an alias of a struct is emitted as a forward reference (a string at run time): `.from_json` must be called on
+	// the class at the end of the chain of aliases, i.e. on a reference re-bound in a loop from the referred object's own type
+	if ffn := ctx.LookupMethod("internal/jennies/python", "RawTypes", "fromJSONForTypeRec"); ffn != nil {
+		ffd, _ := ctx.DeclOf(ffn)
+		k := 0
+		ast.Inspect(ffd.Body, func(m ast.Node) bool {
+			c, ok := m.(*ast.CallExpr)
+			if !ok || len(c.Args) < 1 {
+				return true
+			}
+			sel, ok := c.Fun.(*ast.SelectorExpr)
+			if !ok || sel.Sel.Name != "formatFullyQualifiedRef" {
+				return true
+			}
+			k++
+			followed := false
+			if id, ok := ast.Unparen(c.Args[0]).(*ast.Ident); ok {
+				o := objOf(info, id)
+				ast.Inspect(ffd.Body, func(q ast.Node) bool {
+					loop, ok := q.(*ast.ForStmt)
+					if !ok {
+						return true
+					}
+					ast.Inspect(loop.Body, func(z ast.Node) bool {
+						if as, ok := z.(*ast.AssignStmt); ok && as.Tok == token.ASSIGN && len(as.Lhs) == 1 {
+							if l, ok := as.Lhs[0].(*ast.Ident); ok && objOf(info, l) == o && strings.Contains(exprString(as.Rhs[0]), ".Type.") {
+								followed = true
+							}
+						}
+						return true
+					})
+					return true
+				})
+			}
+			r.Check(followed, "skeleton/python-from-json-on-class", fmt.Sprintf("python.fromJSONForTypeRec from_json target #%d", k), c.Pos(), "the reference is followed through aliases down to the struct",
+				"fromJSONForTypeRec calls from_json on the reference as it is written: for `Alias: Inner` the name Alias is a string at run time (forward reference) — AttributeError: 'str' object has no attribute 'from_json'")
+			return true
+		})
+		r.Count("from_json targets of the python jenny", k)
+		r.Floor("from_json targets of the python jenny", 1)
+	}
+	// (b)
+	enumValueT := ctx.LookupType("internal/ast", "EnumValue")
+	member := ctx.LookupFunc("internal/jennies/python", "formatEnumMemberName")
+	if member == nil {
+		r.Bad("skeleton/python-enum-member-name", "python.formatEnumMemberName", token.NoPos, "the helper that names enum members (and gives the empty name a name) is gone")
+		return
+	}
+	mfd, _ := ctx.DeclOf(member)
+	handlesEmpty := false
+	ast.Inspect(mfd.Body, func(m ast.Node) bool {
+		if be, ok := m.(*ast.BinaryExpr); ok && be.Op == token.EQL {
+			if tv, ok := info.Types[be.Y]; ok && tv.Value != nil && tv.Value.ExactString() == `""` {
+				handlesEmpty = true
+			}
+		}
+		return true
+	})
+	r.Check(handlesEmpty, "skeleton/python-enum-member-name", "python.formatEnumMemberName handles the empty name", mfd.Pos(), "an empty member name gets a name",
+		"formatEnumMemberName no longer tests for the empty name: a string enum with an empty member is emitted as `     = \"\"` — SyntaxError on import of the module")
+	k := 0
+	for _, file := range p.Syntax {
+		var fname string
+		ast.Inspect(file, func(m ast.Node) bool {
+			if d, ok := m.(*ast.FuncDecl); ok {
+				fname = d.Name.Name
+			}
+			c, ok := m.(*ast.CallExpr)
+			if !ok || len(c.Args) != 1 {
+				return true
+			}
+			s, ok := ast.Unparen(c.Args[0]).(*ast.SelectorExpr)
+			if !ok || s.Sel.Name != "Name" || namedOf(info.TypeOf(s.X)) != enumValueT {
+				return true
+			}
+			f := callee(info, c)
+			if f == nil {
+				return true
+			}
+			k++
+			r.Check(f == member, "skeleton/python-enum-member-name", fmt.Sprintf("python.%s names a member #%d", fname, k), c.Pos(), "through formatEnumMemberName",
+				fmt.Sprintf("python.%s builds an enum member name with %s: the member whose name is empty is written without a name (SyntaxError), or referred to under another name than the one the class declares", fname, f.Name()))
+			return true
+		})
+	}
+	r.Count("enum member names written by the python jenny", k)
+	r.Floor("enum member names written by the python jenny", 3)
 }
